@@ -18,6 +18,12 @@ metamodel's generator interleaved with the creations.
      instance against lean/PyxModel/NewInst.lean (driver command `(newinst (gen lin START STEP) op…)`).
      UUID values are never compared: the k-th value produced by the generator is renamed 1000001+k on the
      implementation side (the model runs that stream); D checks non-null and distinct on the raw values.
+
+Family `hist` (D only, see _hist_case): the life of one metamodel whose generator is replaced, which is populated
+through xtuml.ModelLoader, and whose MetaModel object the application may stop referencing (`drop`) while it goes
+on creating instances through the metaclasses / instances it kept.  D: every defaulted id is non-null, new in the
+metamodel, and one of the values of the generator the metamodel holds at that moment (the harness keeps the
+generator objects); a creation advances that generator by exactly the number of ids it defaulted.
 """
 import itertools
 
@@ -29,6 +35,11 @@ RULE = ('(1) exhaustive: every interleaving of peek / next of length <= 9 (quick
         'UNIQUE_ID in random letter case plus unknown type names, optionally one association (referential attribute), '
         'then up to 14 (quick) / 30 (thorough) ops: new with positional prefix of random length + keywords under random '
         'spellings (explicit ids included), peek, next; generator kinds integer / uuid / counting(start, step); '
+        '(3) history of one metamodel (D only): 1-2 classes with trailing unique ids, 3-12 ops of new / replace the '
+        'generator / ModelLoader.populate of rows shorter than the table (some rejected); in half of the cases the '
+        'application drops its reference to the MetaModel at a random point (only metaclasses and instances are kept, '
+        'gc.collect()) and goes on through metaclass.new() / metaclass() / get_metaclass(inst).new() / '
+        'get_metamodel(inst); generator j hands out 100000*j+1, +2, ...; '
         'non-trivial = at least two instances with defaulted ids and one explicit argument; distinct = distinct op sequence')
 EXHAUSTIVE = {'quick': True, 'thorough': True}
 ASSUMPTIONS = ['READING of "never repeats within the metamodel": ids LEFT TO THEIR DEFAULT never repeat among themselves and are '
@@ -46,7 +57,9 @@ ASSUMPTIONS = ['READING of "never repeats within the metamodel": ids LEFT TO THE
                'names are distinct after upper-casing; values are type-consistent '
                '(Python equates False == 0 == 0.0, the model does not)',
                'MetaClass.default_value is reached through a metaclass that belongs to a metamodel (the branch '
-               '`if self.metamodel` false -> None is not exercised)']
+               '`if self.metamodel` false -> None is not exercised by a correct implementation: a metaclass made by '
+               'define_class keeps its metamodel alive; the history family drops the application\'s own reference and '
+               'demands that defaulted ids still come from the generator)']
 CHUNK = 4000
 CASE_TIMEOUT_S = 10
 
@@ -178,7 +191,12 @@ def _hist_case(r):
     bridgepoint.ooaofooa users do after load_metamodel) and which is also populated through xtuml.ModelLoader
     (rows shorter than the table keep defaulted trailing ids; a rejected populate() is followed by more
     creations).  Generator j hands out 100000*j + 1, +2, … so that the oracle knows which generator a defaulted
-    id came from."""
+    id came from.  In about half of the cases the application, at some point of the history, DROPS its own
+    reference to the MetaModel (`drop`: the harness keeps only the metaclasses returned by define_class and the
+    instances, forgets `m` and runs gc.collect() - the helper-function pattern `return m.find_metaclass('A')`);
+    the later creations go through `metaclass.new()`, `metaclass()` or `xtuml.get_metaclass(inst).new()`, the
+    later generator swaps and loads through `xtuml.get_metamodel(inst)` / `metaclass.metamodel`.  The harness
+    keeps the GENERATOR objects, so the oracle still knows which values a defaulted id may take."""
     classes = []
     ops = []
     for c in range(r.randint(1, 2)):
@@ -199,11 +217,16 @@ def _hist_case(r):
     def wrong(T):
         return {'INTEGER': "'x'", 'STRING': '1.5', 'BOOLEAN': "'x'", 'UNIQUE_ID': "'x'"}[T.upper()]
 
+    dropped = False
+    will_drop = r.random() < 0.5
     for _ in range(r.randint(3, 12)):
+        if will_drop and not dropped and r.random() < 0.3:
+            ops.append(['drop'])
+            dropped = True
         w = r.random()
         kind, attrs = r.choice(classes)
-        if w < 0.35:
-            ops.append(['new', respell(r, kind), [], []])
+        if w < (0.6 if dropped else 0.35):
+            ops.append(['new', respell(r, kind), [], []] + ([r.choice(['mc', 'call', 'inst'])] if dropped else []))
         elif w < 0.55:
             ops.append(['swapgen'])
         else:
@@ -278,6 +301,11 @@ def _exc_name(e):
     return Sym('Other')
 
 
+def r_pick(size, n):
+    """a deterministic choice of one of `size` existing instances at op number n"""
+    return (7 * n + 3) % size
+
+
 def _run_hist(case):
     x = _x
     import logging
@@ -295,9 +323,29 @@ def _run_hist(case):
                 return BASE * j + self.count
         return Counting()
 
+    import gc
     j = 0
-    m = x.MetaModel(make(0))
+    gens = [make(0)]      # the harness keeps every generator: the oracle's handle on "the metamodel's generator"
+    m = x.MetaModel(gens[0])
     classes = {}
+    mcs = {}              # KIND -> metaclass as returned by define_class (what the application keeps after `drop`)
+    dropped = False
+
+    def metamodel(n):
+        """the metamodel as the application can reach it: its own reference, or after `drop` through an instance /
+        a metaclass it kept"""
+        if not dropped:
+            return m
+        for mc in mcs.values():
+            for inst in mc.storage:
+                mm = x.get_metamodel(inst)
+                break
+            else:
+                mm = mc.metamodel
+            if mm is None:
+                fail('metamodel-unreachable', 'after the application dropped its reference to the metamodel, the metaclass '
+                     '%r / its instances no longer lead to it (None)' % (mc.kind,), n)
+            return mm
     fails, seen = [], set()
     stats = {'cases_hist': 1}
     checked = 0
@@ -323,31 +371,61 @@ def _run_hist(case):
         nm = op[0]
         stats['op_' + nm] = stats.get('op_' + nm, 0) + 1
         if nm == 'define':
-            m.define_class(op[1], [tuple(a) for a in op[2]])
+            mcs[op[1].upper()] = m.define_class(op[1], [tuple(a) for a in op[2]])
             classes[op[1].upper()] = [tuple(a) for a in op[2]]
+        elif nm == 'drop':
+            dropped = True
+            m = None
+            gc.collect()
         elif nm == 'swapgen':
+            mm = metamodel(n)
+            if mm is None:
+                continue
             j += 1
-            m.id_generator = make(j)
+            gens.append(make(j))
+            mm.id_generator = gens[j]
+            mm = None
         elif nm == 'new':
-            inst = m.new(op[1])
+            how = op[4] if len(op) > 4 else 'm'
+            mc = mcs[op[1].upper()]
+            if how == 'inst' and len(mc.storage) == 0:
+                how = 'mc'
+            stats['new_via_' + how] = stats.get('new_via_' + how, 0) + 1
+            drawn_before = gens[j].count
+            if how == 'm':
+                inst = m.new(op[1])
+            elif how == 'mc':
+                inst = mc.new()
+            elif how == 'call':
+                inst = mc()
+            else:
+                inst = x.get_metaclass(mc.storage[r_pick(len(mc.storage), n)]).new()
+            n_ids = sum(1 for a, t in classes[op[1].upper()] if t.upper() == 'UNIQUE_ID')
+            if gens[j].count != drawn_before + n_ids:
+                fail('generator-not-advanced', 'new(%r) left %d unique ids to their default, the metamodel\'s generator '
+                     'handed out %d values' % (op[1], n_ids, gens[j].count - drawn_before), n)
             for a, t in classes[op[1].upper()]:
                 if t.upper() == 'UNIQUE_ID':
                     check_id(inst.__dict__.get(a), 'new(%r).%s' % (op[1], a), n)
         elif nm == 'load':
-            before = dict((k, len(m.metaclasses[k].storage)) for k in classes)
+            mm = metamodel(n)
+            if mm is None:
+                continue
+            before = dict((k, len(mcs[k].storage)) for k in classes)
             text = '\n'.join('INSERT INTO %s VALUES (%s);' % (k, ', '.join(vs)) for k, vs in op[1])
             loader = x.ModelLoader()
             try:
                 loader.input(text)
-                loader.populate(m)
+                loader.populate(mm)
                 ok = True
             except x.ParsingException:
                 ok = False
+            loader = mm = None
             stats['load_ok' if ok else 'load_rejected'] = stats.get('load_ok' if ok else 'load_rejected', 0) + 1
             if ok:
                 for K in classes:
                     rows = [vs for k, vs in op[1] if k.upper() == K]
-                    made = list(m.metaclasses[K].storage)[before[K]:]
+                    made = list(mcs[K].storage)[before[K]:]
                     if len(made) != len(rows):
                         fail('load-instance-count', 'loading %d rows of %s created %d instances' % (len(rows), K, len(made)), n)
                         continue
@@ -358,7 +436,8 @@ def _run_hist(case):
                                          % (', '.join(vs), K, a), n)
         else:
             raise ValueError(nm)
-    return {'obs': [], 'd_fail': fails, 'nontrivial': checked >= 2 and (stats.get('op_swapgen') or stats.get('op_load')),
+    return {'obs': [], 'd_fail': fails, 'nontrivial': checked >= 2 and bool(stats.get('op_swapgen') or stats.get('op_load')
+                                                                                   or stats.get('op_drop')),
             'key': 'hist/%r' % (case['ops'],), 'stats': stats, 'model_line': None}
 
 
